@@ -241,6 +241,9 @@ func (d *Driver) GenVC(key string, safety bool, lockCheck bool) (fvc *FuncVC) {
 		if s.K == KRef {
 			vc.assume("(and (>= " + v.T + " 0) (<= " + v.T + " " + ex.get(st, "alloc") + "))")
 		}
+		if s.K == KAny {
+			vc.assume("(anyWF " + v.T + ")")
+		}
 		if s.K == KString || s.K == KInt || s.K == KBool {
 			syms = append(syms, [2]string{name, v.T})
 		}
